@@ -79,10 +79,16 @@ impl InstructionGenerator {
             pos,
             Self::numeric_qualifier(&counter_type),
         );
+        // start, limit and step are all evaluated before the counter is set,
+        // so that a header that mentions the counter (FOR I = 1 TO I + 5) sees its old value
+        let start = Self::for_loop_hidden_variable(
+            "start",
+            pos,
+            Self::numeric_qualifier(&counter_type),
+        );
         // lower bound to A
         self.generate_expression_instructions_casting(lower_bound, counter_type.clone());
-        // A to variable
-        self.store_counter(&counter_var_name, pos);
+        self.store_hidden(&start, pos);
         // upper bound to A
         self.generate_expression_instructions_casting(upper_bound, counter_type.clone());
         self.store_hidden(&limit, pos);
@@ -98,6 +104,9 @@ impl InstructionGenerator {
                 // so that the counter only ever holds values of its own type
                 self.generate_expression_instructions_casting(s, counter_type);
                 self.store_hidden(&step_var, pos);
+                // start to the counter
+                self.load_hidden(&start, pos);
+                self.store_counter(&counter_var_name, pos);
                 // is step = 0 ?
                 self.push_load(Variant::VInteger(0), pos);
                 self.push(Instruction::CopyAToB, pos);
@@ -140,6 +149,9 @@ impl InstructionGenerator {
                 self.label("out-of-for", pos);
             }
             None => {
+                // start to the counter
+                self.load_hidden(&start, pos);
+                self.store_counter(&counter_var_name, pos);
                 // loop point
                 self.label("positive-loop", pos);
                 // upper bound to B
